@@ -68,6 +68,14 @@ def mk_scn(rng: random.Random, unauthorised: str = "") -> dict:
         choice = rng.choice([([0], [0]), ([0], [0, 0]), ([0, 0], [0]), ([0], [1]), ([], [0]), ([0], [])])
         for s_ in sims:
             s_["path"] = list(choice[0] if s_["sid"] in ("A", "X") else choice[1])
+        if choice[0] and a_type == "hybrid" and rng.random() < 0.6:
+            # W triggers A at sub-steps (t,1) over a weak connection inside A's group
+            sims[0]["ins"]["w"] = "trigger"
+            sims.append({"sid": "W", "type": "event-based", "path": list(choice[0]), "entities": ["e0"], "ins": {},
+                         "outs": {"o": "nonpersistent"}, "initial_event": 0,
+                         "beh": {"seed": 3, "p_out": 1.0, "L": {"*": 5},
+                                 "self_steps": {str(t): t + 1 for t in range(0, 64)}}})
+            conns.append({"src": "W", "se": "e0", "sa": "o", "dst": "A", "de": ents_a[0], "da": "w", "weak": True})
     if unauthorised:
         # an agent without (async) connection to A tries to write / read
         beh = {"seed": 9, "sizes": [1], "agent": {"targets": [["U.e0", "A.e0", "c"]] if unauthorised != "get" else [],
